@@ -27,8 +27,12 @@ CONSTANTS
   TickVals = {}
   Targets = {"A", "B"}
   AutoVals = {TRUE, FALSE}
+  SubOneshot = {FALSE}
   Senders = {"A"}
   QuitCodes = {1}
+  ForeignOps = {}
+  MaxRefs = 1
+  MaxHeld = 0
   Setup = "loop2"
 INIT Init
 NEXT Next
